@@ -57,7 +57,7 @@ _SPLIT = [False]
 
 
 def archive_name(compress):
-    base = 'out-00000' if _SPLIT[0] else 'out'
+    base = warcharn.PREFIX_NAME[0] + ('-00000' if _SPLIT[0] else '')
     return base + ('.warc.gz' if compress else '.warc')
 
 
@@ -188,6 +188,11 @@ def jobs(tier, seed):
                        split=True))
         js.append(dict(compress=compress, nprev=0, kind='warcinfo', scenario='construct',
                        tier=tier, split=True))
+        # archive prefixes with characters that are special to glob (the start-up journal
+        # check looks the journal up by pattern)
+        for prefix in ('site[1]', 'crawl[2026-09]*?'):
+            js.append(dict(compress=compress, nprev=2, kind='small', scenario='append',
+                           tier=tier, prefix=prefix))
     if seed:
         k = seed % len(js)
         js = js[k:] + js[:k]
@@ -200,8 +205,10 @@ def run_job(job, cap=5):
                                                   'io_faults': 0})
     compress, kind, scen = job['compress'], job['kind'], job['scenario']
     _SPLIT[0] = bool(job.get('split'))
-    tag = '%s/%s/prev=%d/%s%s' % ('gz' if compress else 'plain', kind, job['nprev'], scen,
-                                  '/numbered' if job.get('split') else '')
+    warcharn.PREFIX_NAME[0] = job.get('prefix', 'out')
+    tag = '%s/%s/prev=%d/%s%s%s' % ('gz' if compress else 'plain', kind, job['nprev'], scen,
+                                    '/numbered' if job.get('split') else '',
+                                    '/prefix=' + job['prefix'] if job.get('prefix') else '')
     template = build_template(compress, job['nprev']) if scen == 'append' else None
     seen = set()
 
